@@ -19,6 +19,7 @@ type Profile struct {
 	PBurst          float64
 	PBlock          float64
 	PIdleOut        float64 // share of the departures that are idle timeouts (the world then has a 30 s idle timeout)
+	MinUnlockYield  float64 // lower bound of the unlock-yield probability in non-sequential worlds
 	NoJitter        float64 // share of the worlds without network jitter (blocks can then be aligned with frame ticks)
 	StallBoost      float64 // share of the worlds in which tasks are stalled often (1 step in 100, up to 5 ms)
 	ProbeAfterBlock float64 // probability that a fresh connection joins (and leaves) right after a block
@@ -562,7 +563,7 @@ func (g *genState) focusBlock(lj []int, k int) bool {
 	ei := r.Intn(2)
 	typ := Ref{K: "reg", I: r.Intn(2)}
 	name := []string{"open", "spin"}[r.Intn(2)]
-	prevOp := ""
+	prevOp, ownerOp := "", ""
 	for i, bc := range cs {
 		ent := Ref{K: "of", I: oc*8 + ei}
 		var menu []string
@@ -573,7 +574,14 @@ func (g *genState) focusBlock(lj []int, k int) bool {
 		} else {
 			menu, w = []string{"comp_add", "comp_delete", "comp_update", "comp_list", "action", "pose", "asset_add", "entity_delete", "joiner", "subscribe", "unsubscribe"}, []int{18, 14, 14, 8, 22, 4, 3, 3, 6, 4, 4}
 		}
+		if i >= 1 && (ownerOp == "close" || ownerOp == "entity_delete" || ownerOp == "switch") {
+			// the owner takes the entity away: the others attach to it, change and detach
+			menu, w = []string{"comp_update", "comp_add", "action", "comp_delete", "comp_list", "pose", "joiner"}, []int{28, 20, 26, 10, 6, 4, 6}
+		}
 		op := g.pick(menu, w)
+		if i == 0 {
+			ownerOp = op
+		}
 		if i >= 2 && prevOp != "" && r.Bool(0.35) {
 			op = prevOp // the same request twice on the same object (add/add, delete/delete, action/action)
 		}
@@ -674,6 +682,9 @@ func genWorld(seed uint64, r *simrt.Rand, p *Profile) WorldCfg {
 	}
 	if p.NoJitter > 0 && r.Bool(p.NoJitter) {
 		w.Net.Jitter = 0
+	}
+	if w.Policy != "seq" && w.UnlockYield < p.MinUnlockYield {
+		w.UnlockYield = p.MinUnlockYield
 	}
 	return w
 }
